@@ -12,6 +12,17 @@ below, which is written from the property text and the comments of config/ksrsig
             compared exactly (durations and datetimes in microseconds) with the generator's intent
   main      the real kskm.tools.ksrsigner.main() in subprocesses: exit statuses
   flags     single-flag-off policies x requests violating exactly one rule (builders of corr_C05)
+  flag-pairs  every flag switched off x requests violating that flag's rule AND another rule at once (and each rule
+            alone, and none): fully valid KSRs with real RSA keys, real proof-of-possession signatures, a real timeline
+            and declared policy, every check on; 24 elementary violations (key tag / flags / size / exponent of a key,
+            declared exponent, missing or damaged signature, bundle ids, counts, cycle, slot and distinct-key counts,
+            deprecated / unsupported / unapproved declared algorithms, interval, overlap, validity, horizon) placed
+            pairwise on the same key, in the same bundle, one before the other and the other way round; each request
+            under every-check-on, each of the 15 flags off in turn, and both rules' flags off.  Judged by an oracle
+            assembled from the documented regions of corr_C05 / corr_C06 and the independent verifier of corr_C07:
+            refused iff a violated rule has none of its flags off, and then with the class of such a rule; a flag of a
+            satisfied rule changes nothing
+  chain-flags / chain-pairs  the same for check_skr_and_ksr(): one / two..four of its rules violated at once
 
 impl violates the oracle -> failing input of the property (VIOLATION); impl != model -> broken tie.
 """
@@ -39,8 +50,12 @@ ASSUMPTIONS = [
     "pydantic's validation semantics are modelled (coercion table established by experiment), not verified; strings the model does not cover are answered `unsupported` and judged by the oracle alone",
     "file existence (pydantic FilePath) is passed to the model as the list of existing paths",
     "exit statuses are observed on real subprocesses; what happens after a configuration is loaded is other properties' subject (no KSR is supplied, so status 0 is unreachable here)",
+    "flag-pairs: RSA PKCS#1 v1.5 as implemented by `cryptography` decides proof of possession for implementation and oracle alike; the model is fed the "
+    "recorded answers of the real verifier; a request whose signature set is unusable may end in ValueError instead of KSR_BUNDLE_POP_Violation (C07's subject)",
 ]
-TRUSTED = ["PyYAML (safe_load / safe_dump)", "the documented-form oracle in corr_C16 (Oracle, DOC_*)"]
+TRUSTED = ["PyYAML (safe_load / safe_dump)", "the documented-form oracle in corr_C16 (Oracle, DOC_*)",
+           "flag-pairs: PAIR_RULES (rule -> flags -> classes, from the option comments of config/ksrsigner.yaml) and the clause oracles it is "
+           "evaluated with: corr_C05.region, corr_C06.region, corr_C07.independent_accepts (dnspython + cryptography)"]
 
 SCRATCH_TOKEN = "@SCRATCH@"
 SEC = 10**6
@@ -889,7 +904,11 @@ def run(tier: str, driver_ok: bool) -> Result:
         "example file x every option path x {delete, 15 retypes, misspell, unknown key added to every object, 10 bound values per "
         "integer, 8 string perturbations}; dns_ttl x ksk_policy cross lattice; durations through both parsers; scalar coercion "
         "table; random well-formed configurations via YAML; subprocess main() exit statuses; single-flag-off policies x "
-        "one-rule-violating requests; non-trivial = distinct (stream, tag, tree)"
+        "one-rule-violating requests; flag-pairs: fully checked KSRs (real keys, signatures, timeline) with 0 / 1 / 2 rules violated "
+        "(24 elementary violations, every two of different rules, placed on the same key / same bundle / either one first) x "
+        "{every check on, each of the 15 flags off, both rules' flags off}, expected verdict and class from the documented regions "
+        "(C05, C06) and an independent verifier (C07); chain-pairs: 2..4 rules of check_skr_and_ksr violated at once x the same "
+        "policies; non-trivial = distinct (stream, tag, tree / request, flags off)"
     )
     r = lib.rng("C16")
     with Scratch() as scratch:
@@ -933,6 +952,10 @@ def replay(obj: dict[str, Any]) -> Any:
             return replay_main(case, scratch)
         if case.get("stream") == "flags":
             return replay_flags(case)
+        if case.get("stream") == "flag-pairs":
+            return replay_pairs(case)
+        if case.get("stream") == "chain-pairs":
+            return replay_chain_pairs(case)
         if "op" in case:
             return {"case": case, "model": run_driver([case], exe=DRIVER)[0]}
         tree = uncanon(case.get("tree"), sdir)
@@ -1662,3 +1685,645 @@ def chain_flags_stream(res: Result, tier: str, r: Any, scratch: Path, driver_ok:
 
 
 OTHER_STREAMS.append(chain_flags_stream)
+
+
+# ------------------------------------------------------------------------------------------------
+# stream: every flag switched off x requests violating that flag's rule AND another rule at once
+# ------------------------------------------------------------------------------------------------
+#
+# "switching one check off disables that check and no other" is a statement about EVERY request, in particular about
+# requests that break two rules at once: with the flag of the first rule off, the second rule must still refuse the
+# request (a switched-off check must not mask, skip or shorten another check), and with both rules' flags off it is
+# accepted.  The requests here carry real RSA keys and real proof-of-possession signatures (fixtures/keys.json,
+# signed over dnspython's to-be-signed octets), a real timeline and a declared ZSK policy, so EVERY check of
+# validate_request() is on and satisfied in the base request.  A request is a base request plus one or two ATOMS
+# (elementary violations) placed at a locus: a key, a bundle, a pair of adjacent bundles, or the request as a whole.
+# For every two atoms of different rules the loci are combined so that the two violations sit on the same key, in
+# the same bundle, the first before the second and the second before the first (the order of bundles is the order in
+# which every per-bundle loop meets them).
+#
+# Judges, per (request, set of flags off):
+#   oracle   pair_oracle(): which rules the request violates, established WITHOUT /repo (corr_C05.region for the timing
+#            rules, corr_C06.region for the key / algorithm / header rules, corr_C07.independent_accepts = dnspython +
+#            `cryptography` for proof of possession); the property then says: refused iff a violated rule has none of
+#            its flags off, and the class reported is the class of such a rule
+#   relation a flag whose rule the request does not violate changes nothing (verdict identical to every-check-on)
+#   model    the Lean model of validate_request through the driver, fed the recorded answers of the real verifier
+
+# rule -> (the flags each of which waives it, the classes by which a refusal on its account may be reported); from the
+# option comments of config/ksrsigner.yaml and the KSR-* rule names.  () = the rule has no switch.
+PAIR_RULES: dict[str, tuple[tuple[str, ...], tuple[str, ...]]] = {
+    "domain": ((), ("ksrDomain",)),
+    "unique-ids": ((), ("bundleUnique",)),
+    "keys": (("keys_match_zsk_policy",), ("bundleKeys",)),
+    "exponent": (("rsa_exponent_match_zsk_policy", "keys_match_zsk_policy"), ("bundleKeys",)),
+    "pop": (("validate_signatures",), ("bundlePop",)),
+    "count": ((), ("bundleCount",)),
+    "cycle": (("check_cycle_length",), ("bundleCycleDuration",)),
+    "operator-keys": (("check_keys_match_ksk_operator_policy",), ("policyKeys",)),
+    "algorithm-basic": ((), ("policyAlg",)),
+    "algorithm": (("signature_algorithms_match_zsk_policy",), ("policyAlg",)),
+    "overlap": (("check_bundle_overlap",), ("policySigOverlap",)),
+    "validity": (("signature_validity_match_zsk_policy",), ("policySigValidity",)),
+    "horizon": (("signature_check_expire_horizon",), ("policySigHorizon", "policyBase")),
+    "interval": (("check_bundle_intervals",), ("policyBundleInterval",)),
+}
+# the options validate_request() is documented to obey / the ones that belong to later stages (must change nothing here)
+PAIR_REQUEST_FLAGS = sorted({f for fl, _ in PAIR_RULES.values() for f in fl}, key=CHECK_FLAGS.index)
+PAIR_NEUTRAL_FLAGS = [f for f in CHECK_FLAGS if f not in PAIR_REQUEST_FLAGS]
+PAIR_START = 1_500_000_000 * SEC
+DOC_ALG_NAME = {v: k for k, v in DOC_ALGORITHMS.items()}
+PAIR_MEMBERS = {2: [["k0", "k1"], ["k1", "k2"]], 3: [["k0", "k1"], ["k1"], ["k1", "k2"]], 4: [["k0", "k1"], ["k1"], ["k1"], ["k1", "k2"]]}
+
+
+def pair_base(nb: int, bits: int) -> dict[str, Any]:
+    """the recipe of an honest request (3 distinct ZSKs rolling over nb bundles) and the operator policy accepting it"""
+    import corr_C05
+
+    zp, pol = corr_C05.profiles(nb)[1]  # validity 15..25 d, overlap 9..13 d, interval 9..11 d, cycle +-2 d; honest = 21 / 11 / 10
+    members = [list(m) for m in PAIR_MEMBERS[nb]]
+    return {
+        "nb": nb, "bits": bits, "domain": ".", "ids": [f"b{i}" for i in range(nb)], "members": members,
+        "material": {k: [bits, 65537] for k in ("k0", "k1", "k2")}, "keyflags": {}, "tagdelta": [], "omit": [], "flip": [],
+        "declared": [{"kind": "rsa", "alg": 8, "bits": bits, "exp": 65537}],
+        "timeline": [list(x) for x in corr_C05.honest(nb, PAIR_START)], "zsk": dict(zp), "policy": dict(pol), "late": [],
+        "pol06": {
+            "acceptable_domains": ["."], "approved_algorithms": ["RSASHA256"], "rsa_approved_exponents": [3, 65537],
+            "rsa_approved_key_sizes": [bits], "num_keys_per_bundle": [len(m) for m in members], "num_different_keys_in_all_bundles": 3,
+        },
+        "now": PAIR_START - 5 * DAY_US,
+    }  # fmt: skip
+
+
+def _bundles_of(st: dict[str, Any], kid: str) -> set[int]:
+    return {i for i, m in enumerate(st["members"]) if kid in m}
+
+
+def _absent_key(st: dict[str, Any], b: int) -> str:
+    return next(k for k in ("k0", "k2", "k1") if k not in st["members"][b])
+
+
+def _shift_from(st: dict[str, Any], b: int, d: int) -> None:
+    for k in range(b, st["nb"]):
+        st["timeline"][k] = [st["timeline"][k][0] + d, st["timeline"][k][1] + d]
+
+
+def _set(st: dict[str, Any], path: list[Any], v: Any) -> None:
+    node = st
+    for p in path[:-1]:
+        node = node[p]
+    node[path[-1]] = v
+
+
+def _pair_atoms() -> list[dict[str, Any]]:
+    """name, rule, phase (atoms are applied in phase order so that they compose), loci(st), touched bundles, apply"""
+    keys3 = lambda st: ["k0", "k1", "k2"]  # noqa: E731
+    whole = lambda st: [None]  # noqa: E731
+    none = lambda st, l: set()  # noqa: E731
+    ofkey = lambda st, l: _bundles_of(st, l)  # noqa: E731
+    A: list[dict[str, Any]] = []
+
+    def atom(name: str, rule: str, phase: int, loci: Any, touch: Any, apply: Any, level: str) -> None:
+        A.append({"name": name, "rule": rule, "phase": phase, "loci": loci, "touch": touch, "apply": apply, "level": level})
+
+    atom("domain", "domain", 0, whole, none, lambda st, l: _set(st, ["domain"], "example."), "request")
+    atom("duplicate-bundle-id", "unique-ids", 0, lambda st: sorted({(0, 1), (st["nb"] - 2, st["nb"] - 1), (0, st["nb"] - 1)}),
+         lambda st, l: set(l), lambda st, l: _set(st, ["ids", l[1]], st["ids"][l[0]]), "bundles")
+    # KSR-BUNDLE-KEYS: stated key tag, flags, size (all occurrences of the key), and the key tag of ONE occurrence
+    atom("key-tag", "keys", 2, keys3, ofkey, lambda st, l: st["tagdelta"].append([l, None]), "key")
+    atom("key-tag-one-occurrence", "keys", 2, lambda st: [("k1", b) for b in sorted(_bundles_of(st, "k1"))[1:]],
+         lambda st, l: {l[1]}, lambda st, l: st["tagdelta"].append([l[0], l[1]]), "key")
+    atom("key-flags-257", "keys", 1, keys3, ofkey, lambda st, l: _set(st, ["keyflags", l], 257), "key")
+    atom("key-size", "keys", 0, keys3, ofkey, lambda st, l: _set(st, ["material", l, 0], 2048 if st["bits"] == 1024 else 1024), "key")
+    # the exponent clause (its own switch): one key with exponent 3 / the declared exponent 3 against keys with 65537
+    atom("key-exponent", "exponent", 0, keys3, ofkey, lambda st, l: _set(st, ["material", l, 1], 3), "key")
+    atom("declared-exponent", "exponent", 0, whole, none, lambda st, l: _set(st, ["declared", 0, "exp"], 3), "request")
+    # KSR-BUNDLE-POP: a key without a signature of its own (bundles of >= 2 keys) / one signature octet damaged
+    atom("signature-omitted", "pop", 5, lambda st: [(b, k) for b, m in enumerate(st["members"]) if len(m) >= 2 for k in m],
+         lambda st, l: {l[0]}, lambda st, l: st["omit"].append(list(l)), "key")
+    atom("signature-bit", "pop", 5, lambda st: [(b, k) for b, m in enumerate(st["members"]) for k in m if (b, k) in ((0, "k0"), (st["nb"] - 1, "k2")) or 0 < b < st["nb"] - 1],
+         lambda st, l: {l[0]}, lambda st, l: st["flip"].append(list(l)), "key")
+    atom("bundle-count", "count", 9, whole, none, lambda st, l: _set(st, ["policy", "num_bundles"], st["nb"] + 1), "request")
+    atom("cycle-length", "cycle", 9, whole, none, lambda st, l: st["late"].append(["cycle"]), "request")
+    # KSR-POLICY-KEYS: one key too many in a slot (a key of the request that does not belong there) / distinct-key count
+    atom("slot-count", "operator-keys", 0, lambda st: list(range(st["nb"])), lambda st, l: {l},
+         lambda st, l: st["members"][l].append(_absent_key(st, l)), "bundle")
+    atom("distinct-key-count", "operator-keys", 0, whole, none, lambda st, l: _set(st, ["pol06", "num_different_keys_in_all_bundles"], 4), "request")
+    # KSR-POLICY-ALG: the part without a switch (deprecated / unsupported) and the switchable part (operator's lists)
+    for name, rule, alg, bits, exp in (("declared-deprecated", "algorithm-basic", 1, None, 65537), ("declared-unsupported", "algorithm-basic", 5, None, 65537),
+                                       ("declared-size-unapproved", "algorithm", 8, 4096, 65537), ("declared-exponent-unapproved", "algorithm", 8, None, 17),
+                                       ("declared-algorithm-unapproved", "algorithm", 10, None, 65537)):  # fmt: skip
+        def declare(st: dict[str, Any], l: Any, rule: str = rule, alg: int = alg, bits: int | None = bits, exp: int = exp) -> None:
+            st["declared"].append({"kind": "rsa", "alg": alg, "bits": bits or st["bits"], "exp": exp})
+            if rule == "algorithm-basic":
+                # the operator even lists it as approved: refusing deprecated / unsupported algorithms is not configurable
+                st["pol06"]["approved_algorithms"].append(DOC_ALG_NAME[alg])
+
+        atom(name, rule, 0, whole, none, declare, "request")
+    # timing (phases 6 < 7 < 8 < 9: interval shifts first, then the overlap is set relative to the shifted inception, ...)
+    pairs = lambda st: list(range(st["nb"] - 1))  # noqa: E731
+    atom("interval", "interval", 6, pairs, lambda st, l: {l, l + 1}, lambda st, l: _shift_from(st, l + 1, DAY_US * 3 // 2), "bundle")
+    atom("overlap", "overlap", 7, pairs, lambda st, l: {l, l + 1}, lambda st, l: _set(st, ["timeline", l, 1], st["timeline"][l + 1][0] + 8 * DAY_US), "bundle")
+    atom("validity", "validity", 8, lambda st: [st["nb"] - 1], lambda st, l: {l}, lambda st, l: _set(st, ["timeline", l, 1], st["timeline"][l][0] + 26 * DAY_US), "bundle")
+    atom("horizon-far", "horizon", 9, lambda st: [st["nb"] - 1], lambda st, l: {l}, lambda st, l: st["late"].append(["far", l]), "bundle")
+    atom("horizon-past", "horizon", 9, lambda st: [0], lambda st, l: {l}, lambda st, l: st["late"].append(["past", l]), "bundle")
+    return A
+
+
+def pair_finish(st: dict[str, Any]) -> None:
+    """the knobs that are relative to the final timeline"""
+    tl = st["timeline"]
+    for late in st["late"]:
+        if late[0] == "cycle":
+            cyc = tl[-1][0] - tl[0][0]
+            st["policy"].update(min_cycle=cyc + DAY_US, max_cycle=cyc + 5 * DAY_US)
+        elif late[0] == "far":  # expires exactly one second beyond (horizon + 1) days
+            st["now"] = tl[late[1]][1] - (st["policy"]["horizon_days"] + 1) * DAY_US - SEC
+        elif late[0] == "past":  # expired one second ago
+            st["now"] = tl[late[1]][1] + SEC
+
+
+class PairRing:
+    """fixture keys by (bits, exponent); signatures are cached (most requests share most bundles)"""
+
+    def __init__(self, r: Any) -> None:
+        import keys as fx
+
+        self.pool: dict[tuple[int, int], list[Any]] = {}
+        for bits in (1024, 2048):
+            for e in (65537, 3):
+                ks = list(fx.rsa_keys(bits, e))
+                r.shuffle(ks)
+                self.pool[(bits, e)] = ks
+        self.sigs: dict[Any, str] = {}
+
+    def key(self, kid: str, bits: int, e: int) -> Any:
+        return self.pool[(bits, e)][int(kid[1:])]
+
+    def sign(self, tk: Any, key: dict[str, Any], keys: list[dict[str, Any]], inc: int, exp: int) -> dict[str, Any]:
+        import corr_C07
+
+        s = {"id": key["id"], "ttl": 172800, "alg": key["alg"], "labels": 0, "ottl": 172800, "exp": exp, "inc": inc, "tag": key["tag"], "name": ".", "sig": ""}
+        memo = (key["pk"], key["flags"], inc, exp, tuple(sorted((k["pk"], k["flags"]) for k in keys)))
+        if memo not in self.sigs:
+            tbs = corr_C07.dns_tbs(s, keys)
+            assert tbs is not None
+            import base64
+
+            self.sigs[memo] = base64.b64encode(tk.sign_dnssec(key["alg"], tbs)).decode()
+        s["sig"] = self.sigs[memo]
+        return s
+
+
+def pair_materialise(st: dict[str, Any], ring: PairRing, r: Any) -> dict[str, Any]:
+    """recipe -> the request as plain data (keys, signatures, times, declared policy, operator policy): replayable as is"""
+    import corr_C05
+    import corr_C06
+    import corr_C07
+
+    pair_finish(st)
+    specs: dict[str, dict[str, Any]] = {}
+    tks: dict[str, Any] = {}
+    for kid, (bits, e) in st["material"].items():
+        tks[kid] = ring.key(kid, bits, e)
+        specs[kid] = corr_C06.keyspec(kid, 8, tks[kid].dnskey_public_key(), flags=st["keyflags"].get(kid, 256))
+    honest = corr_C05.honest(st["nb"], PAIR_START)
+    bundles = []
+    for b, members in enumerate(st["members"]):
+        ks = [dict(specs[k]) for k in members]
+        # the requester signs what it submits (proof of possession holds unless an atom damages it afterwards);
+        # the RRSIG's own validity fields are those of the honest timeline (they are ignored by the rule)
+        sigs = [ring.sign(tks[k["id"]], k, ks, honest[b][0], honest[b][1]) for k in ks]
+        for kid, where in st["tagdelta"]:
+            for k in ks:
+                if k["id"] == kid and where in (None, b):
+                    k["tag"] = (k["tag"] + 1) % 65536  # Key.key_tag is not part of the signed RRset
+        for ob, kid in st["omit"]:
+            if ob == b:
+                sigs = [s for s in sigs if s["id"] != kid]
+        for fb, kid in st["flip"]:
+            if fb == b:
+                for s in sigs:
+                    if s["id"] == kid:
+                        s["sig"] = corr_C07.flip(s["sig"], r.randrange(8 * 64))
+        bundles.append({"id": st["ids"][b], "inc": st["timeline"][b][0], "exp": st["timeline"][b][1], "keys": ks, "sigs": sigs})
+    return {"domain": st["domain"], "declared": [dict(d) for d in st["declared"]], "bundles": bundles, "zsk": dict(st["zsk"]),
+            "policy": dict(st["policy"]), "pol06": copy.deepcopy(st["pol06"]), "now": st["now"]}
+
+
+def pair_build(case: dict[str, Any], off: list[str]) -> tuple[Any, Any]:
+    """plain data -> the repository's Request and RequestPolicy (every check on except the flags in `off`)"""
+    import corr_C07
+    from kskm.common.config_misc import RequestPolicy
+    from kskm.common.data import AlgorithmDNSSEC, AlgorithmPolicyRSA, SignaturePolicy
+    from kskm.ksr.data import Request, RequestBundle
+    from lib import us_dt, us_td
+
+    bundles = [
+        RequestBundle(id=b["id"], inception=us_dt(b["inc"]), expiration=us_dt(b["exp"]), keys={corr_C07.mk_key(k) for k in b["keys"]},
+                      signatures={corr_C07.mk_sig(s) for s in b["sigs"]}, signers=None)
+        for b in case["bundles"]
+    ]  # fmt: skip
+    zp, pol, p6 = case["zsk"], case["policy"], case["pol06"]
+    req = Request(
+        id="req", serial=1, domain=case["domain"], timestamp=None, bundles=bundles,
+        zsk_policy=SignaturePolicy(
+            min_signature_validity=us_td(zp["min_validity"]), max_signature_validity=us_td(zp["max_validity"]),
+            min_validity_overlap=us_td(zp["min_overlap"]), max_validity_overlap=us_td(zp["max_overlap"]),
+            algorithms={AlgorithmPolicyRSA(bits=d["bits"], algorithm=AlgorithmDNSSEC(d["alg"]), exponent=d["exp"]) for d in case["declared"]},
+        ),
+    )  # fmt: skip
+    policy = RequestPolicy(
+        acceptable_domains=p6["acceptable_domains"], num_bundles=pol["num_bundles"],
+        min_cycle_inception_length=us_td(pol["min_cycle"]), max_cycle_inception_length=us_td(pol["max_cycle"]),
+        min_bundle_interval=us_td(pol["min_interval"]), max_bundle_interval=us_td(pol["max_interval"]), signature_horizon_days=pol["horizon_days"],
+        approved_algorithms=p6["approved_algorithms"], rsa_approved_exponents=p6["rsa_approved_exponents"], rsa_approved_key_sizes=p6["rsa_approved_key_sizes"],
+        num_keys_per_bundle=p6["num_keys_per_bundle"], num_different_keys_in_all_bundles=p6["num_different_keys_in_all_bundles"],
+        **{f: False for f in off},
+    )  # fmt: skip
+    return req, policy
+
+
+_POP_MEMO: dict[str, bool] = {}
+
+
+def pair_oracle(case: dict[str, Any]) -> dict[str, bool]:
+    """rule -> violated?, flag-independent and without /repo: the clauses of the three documented regions"""
+    import json
+
+    import corr_C05
+    import corr_C06
+    import corr_C07
+
+    c6 = {"domain": case["domain"], "declared": case["declared"], "bundles": [{"id": b["id"], "keys": b["keys"]} for b in case["bundles"]]}
+    on = dict(case["pol06"], keys_match_zsk_policy=True, check_keys_match_ksk_operator_policy=True, signature_algorithms_match_zsk_policy=True,
+              rsa_exponent_match_zsk_policy=True, enable_unsupported_ecdsa=False, enable_unsupported_edwards_dsa=False)  # fmt: skip
+    r_on = corr_C06.region(c6, on)
+    r_waived = corr_C06.region(c6, dict(on, rsa_exponent_match_zsk_policy=False))
+    r_algoff = corr_C06.region(c6, dict(on, signature_algorithms_match_zsk_policy=False))
+    V: dict[str, bool] = {}
+    V["domain"] = not r_on["check_domain"]
+    V["unique-ids"] = not r_on["check_unique_ids"]
+    V["keys"] = not r_waived["check_keys_match_zsk_policy"]  # refused even when the exponent is not looked at
+    # the exponent clause by itself: a key whose algorithm and size are declared, but with another exponent only
+    exp_bad = False
+    for b in case["bundles"]:
+        for k in b["keys"]:
+            import base64
+
+            rd = corr_C06.rfc3110_read(base64.b64decode(k["pk"]))
+            if rd is not None:
+                same = [d for d in case["declared"] if d["kind"] == "rsa" and d["alg"] == k["alg"] and d["bits"] == rd[1]]
+                if same and not any(d["exp"] == rd[0] for d in same):
+                    exp_bad = True
+    V["exponent"] = exp_bad
+    V["operator-keys"] = not r_on["check_keys_in_bundles"]
+    V["algorithm-basic"] = not r_algoff["check_zsk_policy_algorithm"]
+    p6 = case["pol06"]
+    V["algorithm"] = any(
+        corr_C06.ALG_NAMES[d["alg"]] not in p6["approved_algorithms"]
+        or (d["alg"] in corr_C06.DOC_RSA and (d["bits"] not in p6["rsa_approved_key_sizes"] or d["exp"] not in p6["rsa_approved_exponents"]))
+        for d in case["declared"]
+    )
+    pop = True
+    for b in case["bundles"]:
+        memo = json.dumps([b["keys"], b["sigs"]], sort_keys=True)
+        if memo not in _POP_MEMO:
+            _POP_MEMO[memo] = corr_C07.independent_accepts({"keys": b["keys"], "sigs": b["sigs"]})
+        pop = pop and _POP_MEMO[memo]
+    V["pop"] = not pop
+    r5 = corr_C05.region([(b["inc"], b["exp"]) for b in case["bundles"]], case["zsk"], case["policy"], case["now"])
+    V["count"] = not r5["count"]
+    V["cycle"] = not r5["check_cycle_length"]
+    V["overlap"] = not r5["check_bundle_overlap"]
+    V["validity"] = not r5["signature_validity_match_zsk_policy"]
+    V["horizon"] = not r5["signature_check_expire_horizon"]
+    V["interval"] = not r5["check_bundle_intervals"]
+    # the two composite clauses of corr_C06 must be the disjunction of their parts (self-check of this oracle)
+    V["_coherent"] = ((not r_on["check_keys_match_zsk_policy"]) == (V["keys"] or V["exponent"])) and (
+        (not r_on["check_zsk_policy_algorithm"]) == (V["algorithm-basic"] or V["algorithm"]))
+    return V
+
+
+def pair_in_force(V: dict[str, bool], off: list[str]) -> list[str]:
+    """the violated rules none of whose flags is off: the property says the request is refused iff there is one"""
+    return [rule for rule, (flags, _) in PAIR_RULES.items() if V[rule] and not (set(flags) & set(off))]
+
+
+def pair_relation(st: dict[str, Any], a: dict[str, Any], la: Any, b: dict[str, Any], lb: Any) -> str:
+    if a["level"] == "key" and b["level"] == "key":
+        ka = la if isinstance(la, str) else (la[0] if isinstance(la[0], str) else la[1])
+        kb = lb if isinstance(lb, str) else (lb[0] if isinstance(lb[0], str) else lb[1])
+        ta, tb = a["touch"](st, la), b["touch"](st, lb)
+        if ka == kb and ta & tb:
+            return "same-key"
+    ta, tb = a["touch"](st, la), b["touch"](st, lb)
+    if not ta or not tb:
+        return "whole-request"
+    if ta & tb:
+        return "same-bundle"
+    return "first-earlier" if max(ta) < min(tb) else ("second-earlier" if max(tb) < min(ta) else "interleaved")
+
+
+def pair_recipes(tier: str, r: Any, nb: int, bits: int) -> list[dict[str, Any]]:
+    """honest, every atom at every locus, and every two atoms of different rules in every relative placement"""
+    atoms = _pair_atoms()
+    out: list[dict[str, Any]] = []
+
+    def make(parts: list[tuple[dict[str, Any], Any]], relation: str) -> None:
+        st = pair_base(nb, bits)
+        for a, l in sorted(parts, key=lambda p: p[0]["phase"]):
+            a["apply"](st, l)
+        out.append({"st": st, "atoms": [[a["name"], l] for a, l in parts], "rules": sorted({a["rule"] for a, _ in parts}), "relation": relation,
+                    "tag": "+".join(f"{a['name']}@{l}" for a, l in parts) or "honest"})  # fmt: skip
+
+    make([], "honest")
+    probe = pair_base(nb, bits)
+    for a in atoms:
+        for l in a["loci"](probe):
+            make([(a, l)], "single")
+    per_relation = 2 if tier == "quick" else 4
+    for i, a in enumerate(atoms):
+        for b in atoms[i + 1 :]:
+            if a["rule"] == b["rule"]:
+                continue
+            by_rel: dict[str, list[tuple[Any, Any]]] = {}
+            for la in a["loci"](probe):
+                for lb in b["loci"](probe):
+                    if {a["name"], b["name"]} == {"key-size", "key-exponent"} and la == lb:
+                        continue  # one key cannot be of another size and, at the declared size, of another exponent
+                    by_rel.setdefault(pair_relation(probe, a, la, b, lb), []).append((la, lb))
+            for rel, combos in sorted(by_rel.items()):
+                r.shuffle(combos)
+                for la, lb in combos[:per_relation]:
+                    make([(a, la), (b, lb)], rel)
+    # three and four rules at once, at random loci (what they violate is whatever the oracle says: atoms may interact)
+    for _ in range(40 if tier == "quick" else 300):
+        parts: list[tuple[dict[str, Any], Any]] = []
+        for a in r.sample(atoms, r.choice([3, 3, 4])):
+            if a["rule"] not in {p[0]["rule"] for p in parts}:
+                parts.append((a, r.choice(a["loci"](probe))))
+        make(parts, "several")
+        out[-1]["rules"] = None  # no aim
+    return out
+
+
+def pair_policies(rec: dict[str, Any], tier: str, r: Any) -> list[list[str]]:
+    """sets of flags to switch off for one request"""
+    own = sorted({f for rule in rec["rules"] for f in PAIR_RULES[rule][0]}, key=CHECK_FLAGS.index)
+    sets: list[list[str]] = [[]] + [[f] for f in own]
+    if len(rec["rules"]) > 2:
+        # several rules at once: all their flags off but one rule's, all off, random subsets
+        for rule in rec["rules"]:
+            sets.append([f for f in own if f not in PAIR_RULES[rule][0]])
+        sets.append(list(own))
+        sets += [[f for f in own if r.random() < 0.5] for _ in range(3)]
+        sets += [[f] for f in PAIR_NEUTRAL_FLAGS]
+        uniq3: list[list[str]] = []
+        for x in sets:
+            if x not in uniq3:
+                uniq3.append(x)
+        return uniq3
+    if len(rec["rules"]) == 2:
+        fa, fb = (PAIR_RULES[rule][0] for rule in rec["rules"])
+        sets += [sorted({x, y}, key=CHECK_FLAGS.index) for x in fa for y in fb if x != y]
+    sets += [[f] for f in CHECK_FLAGS if f not in own]  # every other flag, one at a time: must change nothing
+    if not rec["rules"] and tier == "thorough":
+        sets += [[f, g] for i, f in enumerate(CHECK_FLAGS) for g in CHECK_FLAGS[i + 1 :]]
+    uniq: list[list[str]] = []
+    for s in sets:
+        if s not in uniq:
+            uniq.append(s)
+    return uniq
+
+
+def pair_run_one(case: dict[str, Any], off: list[str], clock: Any, recorder: Any) -> tuple[Any, dict[str, Any]]:
+    import corr_C07
+    from kskm.ksr.validate import validate_request
+    from lib import request_j, request_policy_j, run_impl
+
+    req, policy = pair_build(case, off)
+    clock.now_us = case["now"]
+    recorder.take()
+    impl = run_impl(lambda: validate_request(req, policy))
+    records = corr_C07.dedupe(recorder.take())
+    return impl, {"op": "validate_request", "request": request_j(req), "policy": request_policy_j(policy), "now": case["now"], "verify": records}
+
+
+def pair_judge(res: Result, rec: dict[str, Any], off: list[str], impl: Any, all_on: Any, V: dict[str, bool], model: Any) -> None:
+    """the property on one (request, flags off), then the tie to the model"""
+    report = {"stream": "flag-pairs", "tag": rec["tag"], "violates": [k for k, v in V.items() if v and not k.startswith("_")], "off": off,
+              "relation": rec["relation"], "case": rec["case"]}  # fmt: skip
+    in_force = pair_in_force(V, off)
+    classes = sorted({c for rule in in_force for c in PAIR_RULES[rule][1]})
+    key = f"{'+'.join(off) or 'all-on'}:{'+'.join(report['violates']) or 'none'}"
+    bad = None
+    if not in_force:
+        if impl != {"ok": None}:
+            bad = ("request violating no rule that is in force is refused" if not off else "switching one check off does not disable exactly that check")
+    elif "ok" in impl:
+        bad = ("request violating a rule is accepted with every check on" if not off else "switching one check off disables another check as well")
+    elif "error" in impl:
+        if "pop" not in in_force:  # an unusable signature set may end in ValueError (C07's subject); anything else may not
+            bad = "request violating a rule ends in a non-policy error"
+    elif impl["violation"] not in classes:
+        bad = "request is refused, but on account of a rule that is switched off or satisfied"
+    if bad:
+        res.violation(bad, report, key=key, impl=impl, expected=("accepted" if not in_force else {"refused_by_one_of": in_force, "classes": classes}), all_on=all_on)
+    elif off and not any(V[rule] and (set(PAIR_RULES[rule][0]) & set(off)) for rule in PAIR_RULES) and impl != all_on:
+        # none of the switched-off flags guards a rule this request violates: nothing at all may change
+        res.violation("switching off a check the request satisfies changes the verdict", report, key="neutral:" + key, impl=impl, all_on=all_on)
+    if model is None:
+        return
+    if lib.is_unsupported(model):
+        res.unsupported += 1
+        res.bump("unsupported:flag-pairs")
+    elif not lib.same_outcome(impl, model):
+        res.disagreement("validate_request with two rules violated / flags off: model != implementation", report, impl, model)
+
+
+def pair_flags_stream(res: Result, tier: str, r: Any, scratch: Path, driver_ok: bool) -> None:
+    import kskm.common.signature as sigmod
+    from lib import PinnedClock
+
+    r = lib.rng("C16-pairs")
+    families = [(3, 1024)] if tier == "quick" else [(3, 1024), (2, 1024), (4, 1024), (3, 2048)]
+    ring = PairRing(r)
+    rows: list[tuple[dict[str, Any], list[str], Any, dict[str, bool]]] = []
+    lines: list[dict[str, Any]] = []
+    covered: dict[tuple[str, str], set[str]] = {}
+    accepted_alone: set[tuple[str, str]] = set()
+    recorder = lib.VerifyRecorder().install(sigmod)
+    try:
+        with PinnedClock() as clock:
+            for nb, bits in families:
+                for rec in pair_recipes(tier, r, nb, bits):
+                    rec["case"] = pair_materialise(rec.pop("st"), ring, r)
+                    rec["family"] = f"{nb}x{bits}"
+                    V = pair_oracle(rec["case"])
+                    violated = sorted(k for k, v in V.items() if v and not k.startswith("_"))
+                    if rec["rules"] is None:
+                        rec["rules"] = violated
+                    if violated != rec["rules"] or not V["_coherent"]:
+                        # the generator missed its aim (the oracle, not the aim, is the judge below)
+                        res.bump("flag-pairs:aim-missed")
+                        res.notes.append(f"flag-pairs: {rec['tag']} ({rec['family']}) was meant to violate {rec['rules']}, the oracle says {violated}")
+                    for off in pair_policies(rec, tier, r):
+                        impl, line = pair_run_one(rec["case"], off, clock, recorder)
+                        rows.append((rec, off, impl, V))
+                        lines.append(line)
+    finally:
+        recorder.uninstall()
+    models = run_driver(lines, exe=DRIVER) if driver_ok else [None] * len(lines)
+    all_on: dict[int, Any] = {id(rec): impl for rec, off, impl, _ in rows if not off}
+    for (rec, off, impl, V), m in zip(rows, models):
+        violated = sorted(k for k, v in V.items() if v and not k.startswith("_"))
+        res.count({"stream": "flag-pairs", "family": rec["family"], "tag": rec["tag"], "off": off})
+        res.bump("stream:flag-pairs")
+        res.bump(f"flag-pairs:rules-violated:{len(violated)}")
+        res.bump(f"flag-pairs:flags-off:{len(off)}")
+        res.bump("flag-pairs:placement:" + rec["relation"])
+        res.bump("flag-pairs:impl:" + ("accept" if "ok" in impl else next(iter(impl.values()))))
+        if len(off) == 1:
+            f = off[0]
+            waived = [rule for rule in violated if f in PAIR_RULES[rule][0]]
+            for g in violated:
+                if waived and g not in waived and "ok" not in impl:
+                    covered.setdefault((f, g), set()).add(rec["relation"])  # f off, f's rule and g violated: refused by g
+            if waived and waived == violated:
+                accepted_alone.add((f, waived[0]))
+            if not waived:
+                for g in violated:
+                    covered.setdefault((f, g), set()).add("flag-of-a-satisfied-rule")
+            rules = list(PAIR_RULES)
+            for w in waived:
+                for g in violated:
+                    if g not in waived:
+                        res.bump("flag-pairs:order:switched-off rule is listed " + ("before" if rules.index(w) < rules.index(g) else "after") + " the rule still in force")
+        pair_judge(res, rec, off, impl, all_on[id(rec)], V, m)
+        if rec["relation"] == "same-key" and rec["tag"].startswith("key-tag@") and "+key-exponent@" in rec["tag"] and off == ["rsa_exponent_match_zsk_policy"]:
+            res.sample({"stream": "flag-pairs", "tag": rec["tag"], "off": off, "violates": violated, "impl": impl, "model": m}, limit=6)
+    # coverage of the matrix flag x other rule (what the evidence should show was explored)
+    want = [(f, g) for f in CHECK_FLAGS for g in PAIR_RULES if f not in PAIR_RULES[g][0]]
+    missing = [f"{f} x {g}" for f, g in want if (f, g) not in covered]
+    res.stats["flag-pairs:matrix"] = f"{len(want) - len(missing)}/{len(want)} (flag off, other rule violated) combinations exercised; every request-level flag accepted alone: {len(accepted_alone)}"
+    if missing:
+        res.notes.append("flag-pairs: combinations not exercised: " + ", ".join(missing))
+    both = {fg: rels for fg, rels in covered.items() if fg[0] in PAIR_REQUEST_FLAGS}
+    res.stats["flag-pairs:placements-per-combination"] = {k: sum(1 for rels in both.values() if k in rels) for k in ("same-key", "same-bundle", "first-earlier", "second-earlier", "interleaved", "whole-request")}
+
+
+OTHER_STREAMS.append(pair_flags_stream)
+
+
+def replay_pairs(case: dict[str, Any]) -> Any:
+    import kskm.common.signature as sigmod
+    from lib import PinnedClock
+
+    out: dict[str, Any] = {"tag": case.get("tag"), "relation": case.get("relation")}
+    V = pair_oracle(case["case"])
+    out["oracle_violated_rules"] = [k for k, v in V.items() if v and not k.startswith("_")]
+    recorder = lib.VerifyRecorder().install(sigmod)
+    try:
+        with PinnedClock() as clock:
+            for name, off in (("all_on", []), ("flags_off", case["off"])):
+                impl, line = pair_run_one(case["case"], off, clock, recorder)
+                out[name] = {"off": off, "implementation": impl, "model": run_driver([line], exe=DRIVER)[0],
+                             "property_expects": "accepted" if not pair_in_force(V, off) else {"refused_by_one_of": pair_in_force(V, off)}}  # fmt: skip
+    finally:
+        recorder.uninstall()
+    return out
+
+
+CHAIN_RULES = {  # rule of check_skr_and_ksr() -> (its flag or None, class)
+    "request-id": (None, "ksrId"), "bundle-id": (None, "bundleUnique"),
+    "chain-keys": ("check_chain_keys", "chainKeys"), "chain-overlap": ("check_chain_overlap", "chainOverlap"),
+}  # fmt: skip
+
+
+def chain_pair_build(violated: list[str], overlap_days: int) -> tuple[Any, Any, Any]:
+    """a two-bundle KSR, the last SKR it follows and the all-on policy, with the listed chain rules violated"""
+    import corr_C05
+    from kskm.common.data import AlgorithmDNSSEC, Key, SignaturePolicy
+    from kskm.skr.data import Response, ResponseBundle
+    from lib import us_dt
+
+    start = 1_500_000_000 * SEC
+    zp, pol = corr_C05.profiles(2)[1]
+    key = Key(key_identifier="zsk1", key_tag=1, ttl=0, flags=256, protocol=3, algorithm=AlgorithmDNSSEC.RSASHA256, public_key=b"AwEAAQ==")
+    req, policy = corr_C05.build(corr_C05.honest(2, start), zp, pol, {f: True for f in corr_C05.TIMING_FLAGS})
+    if "chain-keys" in violated:
+        req = req.replace(bundles=[req.bundles[0].replace(keys={key})] + list(req.bundles[1:]))
+    last_exp = start + overlap_days * DAY_US
+    last = Response(id="req" if "request-id" in violated else "prev", serial=0, domain=".", timestamp=None, zsk_policy=req.zsk_policy, ksk_policy=SignaturePolicy(),
+                    bundles=[ResponseBundle(id=req.bundles[-1].id if "bundle-id" in violated else "pb", inception=us_dt(last_exp - 21 * DAY_US),
+                                            expiration=us_dt(last_exp), keys=set(), signatures=set())])  # fmt: skip
+    return req, last, policy
+
+
+def chain_pairs_stream(res: Result, tier: str, r: Any, scratch: Path, driver_ok: bool) -> None:
+    """check_skr_and_ksr() on KSRs that break TWO (or three, or all four) of its rules at once — the request id of the last
+    SKR re-used, a bundle id of the last SKR re-used (neither has a switch), a first-bundle key the last SKR bundle does not
+    carry (check_chain_keys), too little / too much overlap with the last SKR bundle (check_chain_overlap) — under every
+    single-flag-off policy and with both chain flags off: the rule whose flag is off no longer refuses, every other
+    violated rule still does, with its own class."""
+    import itertools
+
+    from kskm.signer.policy import check_skr_and_ksr
+    from lib import request_j, request_policy_j, response_j, run_impl
+
+    rules = CHAIN_RULES
+    rows: list[dict[str, Any]] = []
+    lines: list[dict[str, Any]] = []
+    combos = [c for n in (2, 3, 4) for c in itertools.combinations(rules, n)]
+    for violated in combos:
+        for overlap_days in ((1, 20) if "chain-overlap" in violated else (11,)):
+            req, last, policy = chain_pair_build(list(violated), overlap_days)
+            offs = [[]] + [[f] for f in CHECK_FLAGS] + [["check_chain_keys", "check_chain_overlap"]]
+            for off in offs:
+                p = policy.replace(**{f: False for f in off}) if off else policy
+                impl = run_impl(lambda: check_skr_and_ksr(req, last, p, None))
+                rows.append({"violated": list(violated), "overlap_days": overlap_days, "off": off, "impl": impl})
+                lines.append({"op": "check_skr_and_ksr", "request": request_j(req), "last": response_j(last), "policy": request_policy_j(p), "token": None})
+    models = run_driver(lines, exe=DRIVER) if driver_ok else [None] * len(lines)
+    base = {(tuple(row["violated"]), row["overlap_days"]): row["impl"] for row in rows if not row["off"]}
+    for row, m in zip(rows, models):
+        rec = {"stream": "chain-pairs", "violated": row["violated"], "overlap_days": row["overlap_days"], "off": row["off"]}
+        res.count(rec)
+        res.bump("stream:chain-pairs")
+        res.bump(f"chain-pairs:rules-violated:{len(row['violated'])}")
+        in_force = [v for v in row["violated"] if rules[v][0] not in row["off"]]
+        classes = [rules[v][1] for v in in_force]
+        impl = row["impl"]
+        if not in_force:
+            bad = impl != {"ok": None}
+        elif not any(rules[v][0] in row["off"] for v in row["violated"]):
+            bad = impl != base[(tuple(row["violated"]), row["overlap_days"])] or impl.get("violation") not in classes
+        else:
+            bad = impl.get("violation") not in classes
+        if bad:
+            res.violation("switching one check off does not disable exactly that check", rec, key=f"chain-pairs:{'+'.join(row['violated'])}:{row['off']}",
+                          impl=impl, expected=("accepted" if not in_force else {"refused_by_one_of": in_force, "classes": classes}))  # fmt: skip
+        if m is None:
+            continue
+        if lib.is_unsupported(m):
+            res.unsupported += 1
+        elif not lib.same_outcome(impl, m):
+            res.disagreement("check_skr_and_ksr with two rules violated / flags off: model != implementation", rec, impl, m)
+
+
+OTHER_STREAMS.append(chain_pairs_stream)
+
+
+def replay_chain_pairs(case: dict[str, Any]) -> Any:
+    from kskm.signer.policy import check_skr_and_ksr
+    from lib import request_j, request_policy_j, response_j, run_impl
+
+    req, last, policy = chain_pair_build(case["violated"], case["overlap_days"])
+    out: dict[str, Any] = {"violated": case["violated"]}
+    for name, off in (("all_on", []), ("flags_off", case["off"])):
+        p = policy.replace(**{f: False for f in off}) if off else policy
+        line = {"op": "check_skr_and_ksr", "request": request_j(req), "last": response_j(last), "policy": request_policy_j(p), "token": None}
+        out[name] = {"off": off, "implementation": run_impl(lambda: check_skr_and_ksr(req, last, p, None)), "model": run_driver([line], exe=DRIVER)[0],
+                     "property_expects_refusal_by": [v for v in case["violated"] if CHAIN_RULES[v][0] not in off]}  # fmt: skip
+    return out
